@@ -6,7 +6,7 @@ use lsp_types::{
     GotoDefinitionParams, Location,
 };
 use spl_frontend::{
-    table::{DataType, Entry, GlobalEntry, LookupTable, SymbolTable},
+    table::{DataType, Entry, GlobalEntry, SymbolTable},
     ToRange, ToTextRange,
 };
 use tokio::sync::mpsc::Sender;
@@ -19,7 +19,7 @@ pub async fn declaration(
     let uri = doc_params.text_document.uri.clone();
     if let Some(cursor) = super::doc_cursor(doc_params, doctx).await? {
         if let Some(ident) = &cursor.ident() {
-            let on_context_name = cursor.is_context_name(ident);
+            let scope = cursor.scope(ident);
             let DocumentCursor { doc, context, .. } = cursor;
             if let Some(entry) = context {
                 match &entry {
@@ -43,16 +43,7 @@ pub async fn declaration(
                         }
                     }
                     GlobalEntry::Procedure(p) => {
-                        let lookup_table = LookupTable {
-                            global_table: Some(&doc.table),
-                            local_table: Some(&p.local_table),
-                        };
-                        let entry = if on_context_name {
-                            // the name of the procedure itself is not shadowed by its locals
-                            Some(Entry::Procedure(p))
-                        } else {
-                            lookup_table.lookup(&ident.value)
-                        };
+                        let entry = scope.lookup(&ident.value, p, &doc.table);
                         if let Some(entry) = entry {
                             // early return for default values
                             if entry.is_default() {
@@ -95,7 +86,7 @@ pub async fn type_definition(
     let uri = doc_params.text_document.uri.clone();
     if let Some(cursor) = super::doc_cursor(doc_params, doctx).await? {
         if let Some(ident) = &cursor.ident() {
-            let on_context_name = cursor.is_context_name(ident);
+            let scope = cursor.scope(ident);
             let DocumentCursor { doc, context, .. } = cursor;
             if let Some(entry) = context {
                 match &entry {
@@ -121,16 +112,7 @@ pub async fn type_definition(
                         }
                     }
                     GlobalEntry::Procedure(p) => {
-                        let lookup_table = LookupTable {
-                            global_table: Some(&doc.table),
-                            local_table: Some(&p.local_table),
-                        };
-                        let entry = if on_context_name {
-                            // the name of the procedure itself is not shadowed by its locals
-                            Some(Entry::Procedure(p))
-                        } else {
-                            lookup_table.lookup(&ident.value)
-                        };
+                        let entry = scope.lookup(&ident.value, p, &doc.table);
                         if let Some(entry) = entry {
                             match &entry {
                                 Entry::Type(t) => {
@@ -189,21 +171,12 @@ pub async fn implementation(
     let uri = doc_params.text_document.uri.clone();
     if let Some(cursor) = super::doc_cursor(doc_params, doctx).await? {
         if let Some(ident) = &cursor.ident() {
-            let on_context_name = cursor.is_context_name(ident);
+            let scope = cursor.scope(ident);
             let DocumentCursor { doc, context, .. } = cursor;
             if let Some(entry) = context {
                 match &entry {
                     GlobalEntry::Procedure(p) => {
-                        let lookup_table = LookupTable {
-                            global_table: Some(&doc.table),
-                            local_table: Some(&p.local_table),
-                        };
-                        let entry = if on_context_name {
-                            // the name of the procedure itself is not shadowed by its locals
-                            Some(Entry::Procedure(p))
-                        } else {
-                            lookup_table.lookup(&ident.value)
-                        };
+                        let entry = scope.lookup(&ident.value, p, &doc.table);
                         if let Some(entry) = entry {
                             // early return for default values
                             if entry.is_default() {
